@@ -54,6 +54,8 @@ struct Args {
     evidence: Option<PathBuf>,
     replay: Option<PathBuf>,
     det_pairs: u64,
+    miri_seeds: u64,
+    miri_violations: u64,
     verbose: bool,
 }
 
@@ -78,6 +80,8 @@ fn parse_args() -> Result<Args, String> {
         evidence: None,
         replay: None,
         det_pairs: 0,
+        miri_seeds: 0,
+        miri_violations: 0,
         verbose: false,
     };
     let mut it = std::env::args().skip(1);
@@ -93,9 +97,11 @@ fn parse_args() -> Result<Args, String> {
             "--hashes" => a.hashes = Some(PathBuf::from(val("--hashes")?)),
             "--evidence" => a.evidence = Some(PathBuf::from(val("--evidence")?)),
             "--det-pairs" => a.det_pairs = val("--det-pairs")?.parse().map_err(|e| format!("--det-pairs: {e}"))?,
+            "--miri-seeds" => a.miri_seeds = val("--miri-seeds")?.parse().map_err(|e| format!("--miri-seeds: {e}"))?,
+            "--miri-violations" => a.miri_violations = val("--miri-violations")?.parse().map_err(|e| format!("--miri-violations: {e}"))?,
             "--verbose" => a.verbose = true,
             other if a.cmd == "replay" && a.replay.is_none() => a.replay = Some(PathBuf::from(other)),
-            _ if a.cmd == "cmp-hashes" => {}
+            _ if a.cmd == "cmp-hashes" || a.cmd == "evidence-add-miri" => {}
             other => return Err(format!("unknown argument {other}")),
         }
     }
@@ -974,7 +980,7 @@ fn cmd_run(args: &Args) -> i32 {
         "seed": args.seed,
         "level": "exploration",
         "wall_s": wall,
-        "violations": n_viol,
+        "violations": n_viol + args.miri_violations.min(1) as i32,
         "coverage": {
             "evaluations": executed.max(1),
             "distinct_nontrivial": signatures.len(),
@@ -1006,6 +1012,11 @@ fn cmd_run(args: &Args) -> i32 {
             },
             "event_log_hash_combined": format!("{combined:016x}"),
             "determinism_pairs_checked": args.det_pairs,
+            "miri_concurrent_clients": {
+                "what": "3 client threads x 24 operations (loads through the seam from memory, lookups, UTC<->TAI conversions, SOFA-inclusive touches) interpreted by Miri, whose seeded scheduler preempts at basic-block granularity; one miri seed = one interleaving; thorough tier only (and as a fallback when violations seen in a batch do not replay from their scenario)",
+                "miri_seeds_executed": args.miri_seeds,
+                "miri_seeds_with_violation": args.miri_violations,
+            },
             "rare_condition_probes_stuck_at_zero": stuck,
             "components": {
                 "real": [
@@ -1088,6 +1099,25 @@ fn main() {
         "run" => cmd_run(&args),
         "replay" => cmd_replay(&args),
         "audit" => cmd_audit(),
+        "evidence-add-miri" => {
+            let a: Vec<String> = std::env::args().skip(2).collect();
+            if a.len() != 3 {
+                harness_error("usage: sim evidence-add-miri <evidence.json> <seeds> <violations>");
+            }
+            let text = std::fs::read_to_string(&a[0]).unwrap_or_else(|e| harness_error(&format!("{e}")));
+            let mut v: Value = serde_json::from_str(&text).unwrap_or_else(|e| harness_error(&format!("{e}")));
+            let seeds: u64 = a[1].parse().unwrap_or(0);
+            let bad: u64 = a[2].parse().unwrap_or(0);
+            v["coverage"]["miri_concurrent_clients"]["miri_seeds_executed"] = json!(seeds);
+            v["coverage"]["miri_concurrent_clients"]["miri_seeds_with_violation"] = json!(bad);
+            if bad > 0 {
+                let n = v["violations"].as_i64().unwrap_or(0);
+                v["violations"] = json!(n + 1);
+            }
+            std::fs::write(&a[0], serde_json::to_string_pretty(&v).unwrap())
+                .unwrap_or_else(|e| harness_error(&format!("{e}")));
+            0
+        }
         "cmp-hashes" => {
             let a: Vec<String> = std::env::args().skip(2).collect();
             if a.len() != 2 {
